@@ -2,6 +2,7 @@
  *
  * usage: c15_digest run <seed> <ncases> <nops> <module>...
  *        c15_digest one <case_seed> <nops> <module> [-v]      (replay of one case)
+ *        c15_digest probe <module>...                          (prints: probe <path> <invert-loop capable> <8-bit looped samples>)
  *
  * A case = (module, sample rate, output format, interpolator, player flags, optional injection of
  * Protracker invert-loop effects into the patterns before the snapshot, random history of API
@@ -19,6 +20,10 @@
  * Output:
  *   case <case_seed> <nops> <path> rate=.. fmt=.. interp=.. inject=.. smp=.. pat=..
  *   o_fail <signature> op=<index>:<name> <details>          a violation of the property
+ *   inv <call> <chn> <speed> <count0> <pos0> <count1> <pos1> <smp> <present> <loop> <sloop> <16bit> <datanull>
+ *       <lps> <lpe> <sus> <sue> <nflipped> <first flipped offset>
+ *                       correspondence for the model of update_invloop (one line per xmp_play_frame and channel
+ *                       with invert-loop speed > 0): state before/after, what it reads, what was flipped
  *   end calls=<n> frames=<n> invloop_bytes=<n> hdr_changed=<n> patched_possible=<n>
  * The module header (xmp_module scalars and order list) is compared too but only counted
  * (`hdr_changed`): the property speaks of pattern, instrument, envelope and sample data.
@@ -539,6 +544,22 @@ int main(int argc, char **argv)
 		int npaths = argc - 5;
 		for (i = 0; i < ncases; i++)
 			run_case(seed * 1000003ULL + (uint64_t)i, nops, argv[5 + (i % npaths)]);
+	} else if (argc >= 3 && !strcmp(argv[1], "probe")) {
+		/* which modules can carry the invert-loop effect (QUIRK_PROTRACK|QUIRK_INVLOOP, 8-bit looped samples) */
+		for (i = 2; i < argc; i++) {
+			xmp_context o = xmp_create_context();
+			struct context_data *ctx = (struct context_data *)o;
+			if (xmp_load_module(o, argv[i]) == 0) {
+				struct module_data *m = &ctx->m;
+				int j, loops = 0;
+				for (j = 0; j < m->mod.smp; j++)
+					loops += (m->mod.xxs[j].flg & XMP_SAMPLE_LOOP) && !(m->mod.xxs[j].flg & XMP_SAMPLE_16BIT) && m->mod.xxs[j].data;
+				printf("probe %s %d %d\n", argv[i], HAS_QUIRK(QUIRK_PROTRACK | QUIRK_INVLOOP) ? 1 : 0, loops);
+				xmp_release_module(o);
+			}
+			xmp_free_context(o);
+		}
+		return 0;
 	} else if (argc >= 5 && !strcmp(argv[1], "one")) {
 		verbose = argc > 5 && !strcmp(argv[5], "-v");
 		run_case(strtoull(argv[2], NULL, 10), atoi(argv[3]), argv[4]);
